@@ -21,10 +21,11 @@ from typing import Any, Dict, List, Optional, Tuple
 # ---------------------------------------------------------------------------------------------
 # patterns: ids used by the specification -> real regular expressions (match at start)
 PATTERNS: Dict[str, str] = {
-    "pa": "a",          # starts with "a"
-    "pnum": "[0-9]+$",  # only digits
-    "pz": "z",          # starts with "z"
-    "pab": "ab",        # starts with "ab"
+    # start-anchored, so that re.match (apischema) and re.search (JSON Schema validators) agree
+    "pa": "^a",           # starts with "a"
+    "pnum": "^[0-9]+$",   # only digits
+    "pz": "^z",           # starts with "z"
+    "pab": "^ab",         # starts with "ab"
 }
 
 BOOL_WORDS_TRUE = {"1", "t", "y", "yes", "true", "on", "ok"}
